@@ -14,9 +14,6 @@ use arbitrary::Result as ArbitraryResult;
 use indexmap::IndexMap;
 use indexmap::IndexSet;
 
-/// Nesting bound for generated selection sets, see [`DocumentBuilder::field`].
-const MAX_SELECTION_SET_DEPTH: usize = 32;
-
 /// The __FieldDef type represents each field definition in an Object definition or Interface type definition.
 ///
 /// *FieldDefinition*:
@@ -170,12 +167,6 @@ impl DocumentBuilder<'_> {
 
     /// Create an arbitrary `Field` given an object type
     pub fn field(&mut self, _index: usize) -> ArbitraryResult<Field> {
-        // Once the input is exhausted every choice is the same one, so a type that can reach
-        // itself through its first composite field (`type T { t: T }`) would be selected into
-        // forever. Report the exhausted input instead of overflowing the stack.
-        if self.stack.len() > MAX_SELECTION_SET_DEPTH {
-            return Err(arbitrary::Error::NotEnoughData);
-        }
         let fields_defs = self
             .stack
             .last()
